@@ -392,6 +392,12 @@ def xsd_outcome(chk: harness.Check, run: xschema.XsdRun, base: Dict[str, Any], w
             chk.count("xsd_refusals_for_patterns_with_non_xml_characters")
             return False
         causes = sorted({c for c in (xschema.confirmed_cause_of_refusal(p) for p in patterns) if c})
+        if not causes:
+            # the re-spelt variants may fail for reasons of their own (colliding ranges):
+            # then the place the refusal itself points at decides
+            causes = sorted({
+                c for c in (xschema.refusal_points_at_undone_escape(p, run.stderr) for p in patterns) if c
+            })
         chk.violation(
             "xsd-refused/pattern-translation/" + (causes[0] if causes else msg),
             dict(base, stderr=run.stderr[-2500:], patterns=patterns[:8]),
